@@ -183,6 +183,16 @@ fn table_dump(t: &DrawTable) -> String {
         .join(",")
 }
 
+// the record as a lookup function: entries with count 0 are the same as absent entries
+fn table_dump_nz(t: &DrawTable) -> String {
+    let mut v: Vec<(u64, u8)> = t.table.iter().map(|(k, c)| (*k, *c)).filter(|(_, c)| *c != 0).collect();
+    v.sort();
+    v.iter()
+        .map(|(k, c)| format!("{:016x}:{}", k, c))
+        .collect::<Vec<_>>()
+        .join(",")
+}
+
 fn counts_dump(t: &DrawTable) -> String {
     let mut v: Vec<u8> = t.table.values().cloned().filter(|c| *c != 0).collect();
     v.sort();
@@ -417,7 +427,7 @@ fn do_search(fields: &[&str], z: &ZobristHasher, out: &mut dyn Write) {
     let r = catch_unwind(AssertUnwindSafe(|| {
         let mut t = DrawTable::new();
         let b = uci::verif_play_out_position(&cmds, z, &mut t);
-        let before = table_dump(&t);
+        let before = table_dump_nz(&t);
         let (tx, rx) = std::sync::mpsc::channel();
         utils::verif::STATE.with(|s| {
             let mut s = s.borrow_mut();
@@ -436,7 +446,7 @@ fn do_search(fields: &[&str], z: &ZobristHasher, out: &mut dyn Write) {
         });
         drop(tx);
         let sends: Vec<String> = rx.try_iter().map(|s| format!("{}#{}", bestmove_text(&s), proj(&s))).collect();
-        let after = table_dump(&t);
+        let after = table_dump_nz(&t);
         let infos: Vec<String> = lines.iter().map(|l| strip_time(l)).collect();
         let i = format!(
             "search panic={} consulted={} sends={} infos={} restored={}",
